@@ -50,11 +50,50 @@ func (b *c17Buf) String() string {
 	defer b.mu.Unlock()
 	return b.b.String()
 }
+// Take returns the content and empties the buffer in one step.
+func (b *c17Buf) Take() string {
+	b.mu.Lock()
+	defer b.mu.Unlock()
+	s := b.b.String()
+	b.b.Reset()
+	return s
+}
 func (b *c17Buf) Reset() {
 	b.mu.Lock()
 	b.b.Reset()
 	b.mu.Unlock()
 }
+
+// c17FDs holds the process's file descriptors 1 and 2 for the time of the harness: what the code under test
+// writes through a logger on os.Stdout / os.Stderr, through the standard logger when nobody redirected it, with
+// fmt.Print* or println is scanned together with the loggers the harness hands in.
+var c17FDs *vc17.FDCapture
+
+// c17Std: what went to the standard logger and to the standard streams since the last reset
+func c17Std(glob *c17Buf) string {
+	s := glob.Take()
+	if c17FDs != nil {
+		s += c17FDs.Take()
+	}
+	return s
+}
+
+// c17StdReset starts a new scenario: what was written to the standard logger / streams since the last scan
+// belongs to no scenario; it is scanned for every client before it is dropped.
+func c17StdReset(glob *c17Buf) {
+	rest := c17Std(glob)
+	if c17StdOut == nil || rest == "" {
+		return
+	}
+	c17StdOut.Checked()
+	for _, cl := range vc17.Clients() {
+		if hit := vc17.Scan(rest, cl.Needles); hit != "" {
+			c17Fail(c17StdOut, "C17:std-stream-has-client-address", "between scenarios the process's standard logger / standard streams received "+hit+": "+c17Clip(rest, hit), "relay|std")
+		}
+	}
+}
+
+var c17StdOut *vlib.Out
 
 // c17Fail reports at most a handful of failures per signature, so that every signature that occurs is
 // among the failures the check gets to see.
@@ -104,7 +143,10 @@ type c17Conn struct {
 	local, remote net.Addr
 	chunks        [][]byte
 	readErr       error
+	readData      []byte // returned together with readErr (a buffering transport hands back what it has decoded
+	// along with the error of the socket underneath; the obfs4 connection does)
 	writeErr      error
+	writePartial  bool // the failing Write reports that part of the data went out
 	closeErr      error
 	dlErr         error
 	dlFailAt      int
@@ -139,7 +181,7 @@ func (c *c17Conn) Read(p []byte) (int, error) {
 	}
 	c.mu.Unlock()
 	if c.readErr != nil {
-		return 0, c.readErr
+		return copy(p, c.readData), c.readErr
 	}
 	if c.block {
 		<-c.closed
@@ -149,6 +191,9 @@ func (c *c17Conn) Read(p []byte) (int, error) {
 }
 func (c *c17Conn) Write(p []byte) (int, error) {
 	if c.writeErr != nil {
+		if c.writePartial {
+			return (len(p) + 1) / 2, c.writeErr
+		}
 		return 0, c.writeErr
 	}
 	return len(p), nil
@@ -182,14 +227,16 @@ func c17Settle(base int) {
 	}
 }
 
-var c17Positions = []string{"client.Read", "client.Write", "client.Close", "client.SetDeadline#0", "client.SetDeadline#1",
-	"covert.Read", "covert.Write", "covert.Close", "covert.SetDeadline#0", "covert.SetDeadline#1"}
+// "Read+data": the failing Read returns bytes together with the error
+// "Write+partial": the failing Write reports a partial count
+var c17Positions = []string{"client.Read", "client.Read+data", "client.Write", "client.Write+partial", "client.Close", "client.SetDeadline#0", "client.SetDeadline#1",
+	"covert.Read", "covert.Read+data", "covert.Write", "covert.Write+partial", "covert.Close", "covert.SetDeadline#0", "covert.SetDeadline#1"}
 
 func c17OpOf(pos string) string {
 	switch {
-	case strings.HasSuffix(pos, "Read"):
+	case strings.HasSuffix(pos, "Read"), strings.HasSuffix(pos, "Read+data"):
 		return "read"
-	case strings.HasSuffix(pos, "Write"):
+	case strings.HasSuffix(pos, "Write"), strings.HasSuffix(pos, "Write+partial"):
 		return "write"
 	case strings.HasSuffix(pos, "Close"):
 		return "close"
@@ -212,8 +259,12 @@ func c17Relay(cl vc17.Client, up bool, pos string, n *vc17.Node, glob *c17Buf) (
 	switch c17OpOf(pos) {
 	case "read":
 		target.readErr = err
+		if strings.HasSuffix(pos, "+data") {
+			target.readData = []byte("the last bytes, handed back with the error")
+		}
 	case "write":
 		target.writeErr = err
+		target.writePartial = strings.HasSuffix(pos, "+partial")
 	case "close":
 		target.closeErr = err
 	default:
@@ -226,7 +277,7 @@ func c17Relay(cl vc17.Client, up bool, pos string, n *vc17.Node, glob *c17Buf) (
 	var wg sync.WaitGroup
 	wg.Add(1)
 	base := runtime.NumGoroutine()
-	glob.Reset()
+	c17StdReset(glob)
 	if up {
 		halfPipe(client, covert, &wg, logger, "Up 0011223344556677", stats)
 	} else {
@@ -235,7 +286,7 @@ func c17Relay(cl vc17.Client, up bool, pos string, n *vc17.Node, glob *c17Buf) (
 	wg.Wait()
 	c17Settle(base)
 	stats.Print(logger)
-	return lb.String() + glob.String(), stats
+	return lb.String() + c17Std(glob), stats
 }
 
 func c17RelayAll(out *vlib.Out, glob *c17Buf) {
@@ -259,8 +310,8 @@ func c17RelayAll(out *vlib.Out, glob *c17Buf) {
 					}
 					// correspondence: the statistic recorded for a failed read / write of this direction is
 					// the text the model computes for generalizeErr
-					reads := (pos == "client.Read" && up) || (pos == "covert.Read" && !up)
-					writes := (pos == "covert.Write" && up) || (pos == "client.Write" && !up)
+					reads := (strings.HasPrefix(pos, "client.Read") && up) || (strings.HasPrefix(pos, "covert.Read") && !up)
+					writes := (strings.HasPrefix(pos, "covert.Write") && up) || (strings.HasPrefix(pos, "client.Write") && !up)
 					if reads || writes {
 						field := stats.ClientConnErr
 						if strings.HasPrefix(pos, "covert") {
@@ -310,6 +361,12 @@ func c17ProxyAll(out *vlib.Out, glob *c17Buf) {
 		for _, op := range []string{"read", "write", "close"} {
 			for _, n := range vc17.Shapes(op, st, cl.Addr) {
 				injs = append(injs, inj{"client." + strings.ToUpper(op[:1]) + op[1:], n})
+				if op == "read" {
+					injs = append(injs, inj{"client.Read+data", n})
+				}
+				if op == "write" {
+					injs = append(injs, inj{"client.Write+partial", n})
+				}
 			}
 		}
 		none := &vc17.Node{Kind: "eof"}
@@ -389,8 +446,12 @@ func c17ProxyOne(out *vlib.Out, glob *c17Buf, cl vc17.Client, pos string, n *vc1
 		switch pos {
 		case "client.Read":
 			client.readErr = e
+		case "client.Read+data":
+			client.readErr, client.readData = e, []byte("the last bytes, handed back with the error")
 		case "client.Write":
 			client.writeErr = e
+		case "client.Write+partial":
+			client.writeErr, client.writePartial = e, true
 		case "client.Close":
 			client.closeErr = e
 			client.block = false
@@ -399,7 +460,7 @@ func c17ProxyOne(out *vlib.Out, glob *c17Buf, cl vc17.Client, pos string, n *vc1
 		}
 		var lb c17Buf
 		logger := log.New(&lb, "[CONN] _ -> 192.0.2.77 ", golog.Ldate|golog.Lmicroseconds)
-		glob.Reset()
+		c17StdReset(glob)
 		reg := c05RegLike(addr, flags == "header-on")
 		if flags == "no-flags" {
 			reg.Flags = nil
@@ -415,7 +476,7 @@ func c17ProxyOne(out *vlib.Out, glob *c17Buf, cl vc17.Client, pos string, n *vc1
 		}
 		<-srvDone
 		c17Settle(base)
-		logged := lb.String() + glob.String()
+		logged := lb.String() + c17Std(glob)
 		out.Checked()
 		if hit := vc17.Scan(logged, cl.Needles); hit != "" {
 			c17Fail(out, "C17:relay-log-has-client-address",
@@ -454,6 +515,7 @@ func c17HeaderWrite(out *vlib.Out) {
 			for _, n := range shapes {
 				covert := newC17Conn(local.TCP, cov.TCP)
 				covert.writeErr = n.Go()
+				covert.writePartial = len(form)%2 == 0
 				err := writePROXYHeader(covert, form)
 				out.Checked()
 				out.Count("header-write")
@@ -629,6 +691,14 @@ func TestVerifC17Lib(t *testing.T) {
 	getProxyStats()
 	out := vlib.Open("C17")
 	defer out.Close()
+	if fds, err := vc17.CaptureFDs(); err != nil {
+		out.Note("C17 lib: file descriptors 1 and 2 could not be diverted (" + err.Error() + "); only the loggers are scanned")
+	} else {
+		c17FDs = fds
+		defer func() { c17FDs = nil; fds.Stop() }()
+	}
+	c17StdOut = out
+	defer func() { c17StdOut = nil }()
 	out.Note("C17 lib: error trees through generalizeErr (proxies.go); injected errors at every I/O call of halfPipe/Proxy; registrations through ingestRegistration; log output scanned for client addresses in every textual form")
 	if rp := vlib.Replay(); rp != "" {
 		c17LibReplay(t, out, rp, &glob)
@@ -686,8 +756,17 @@ func TestVerifC17Lib(t *testing.T) {
 	// (D) connecting transports: GeoIP failure, relay over a UDP-addressed connection
 	c17Connecting(t, out, &glob)
 	c17ConnectFails(out, &glob)
+	c17GeoIPShapes(t, out, &glob)
 	// (E) the statistics printers, after all of the above has been counted
 	c17Statistics(out, all[:len(clients)])
+	// whatever reached the standard logger or the standard streams outside a scanned scenario
+	rest := c17Std(&glob)
+	out.Checked()
+	for _, needles := range all[:len(clients)] {
+		if hit := vc17.Scan(rest, needles); hit != "" {
+			c17Fail(out, "C17:std-stream-has-client-address", "the process's standard logger / standard streams contain "+hit+": "+c17Clip(rest, hit), "relay|std")
+		}
+	}
 }
 
 // ---------------------------------------------------------------------------------------------
@@ -782,7 +861,7 @@ func c17Connecting(t *testing.T, out *vlib.Out, glob *c17Buf) {
 			reg.registrationAddr = cl.Addr.TCP.IP
 			var lb c17Buf
 			logger := log.New(&lb, "[REG] ", golog.Ldate|golog.Lmicroseconds)
-			glob.Reset()
+			c17StdReset(glob)
 			base := runtime.NumGoroutine()
 			handleConnectingTpReg(rm, reg, logger)
 			// the work happens on a goroutine of its own: wait for what ends it
@@ -795,7 +874,7 @@ func c17Connecting(t *testing.T, out *vlib.Out, glob *c17Buf) {
 				time.Sleep(250 * time.Microsecond)
 			}
 			c17Settle(base)
-			logged := lb.String() + glob.String()
+			logged := lb.String() + c17Std(glob)
 			out.Checked()
 			out.Count("connecting:" + mode)
 			if !strings.Contains(logged, want) {
@@ -864,7 +943,7 @@ func c17ConnectFails(out *vlib.Out, glob *c17Buf) {
 			}
 			var lb c17Buf
 			rm.Logger = log.New(&lb, "[REG] ", golog.Ldate|golog.Lmicroseconds)
-			glob.Reset()
+			c17StdReset(glob)
 			base := runtime.NumGoroutine()
 			via := "direct"
 			started := 1
@@ -917,7 +996,7 @@ func c17ConnectFails(out *vlib.Out, glob *c17Buf) {
 				}
 			}
 			c17Settle(base)
-			logged := lb.String() + glob.String()
+			logged := lb.String() + c17Std(glob)
 			out.Checked()
 			out.Count("connecting:connect-fails:" + via + ":" + n.Kind)
 			if started == 0 || ended != started {
@@ -928,6 +1007,108 @@ func c17ConnectFails(out *vlib.Out, glob *c17Buf) {
 				c17Fail(out, "C17:connect-failure-log-has-client-address",
 					fmt.Sprintf("connecting transport, %s client, Connect fails with %q (%s): the log contains %s: %s", cl.Name, e.Error(), via, hit, c17Clip(logged, hit)),
 					"connecting|"+cl.Name+"|connect-fails|"+via+"|"+n.Enc())
+			}
+		}
+	}
+}
+
+// c17GeoIPShapes: the station's GeoIP wrapper opened on every combination of database shapes — country and
+// ASN database each absent / IPv4-only / dual-stack / failing inside the reader — for every client family,
+// through the two places of package lib that look a client up and log a failure: building a registration
+// from a registrar's message (parseRegMessage, as the ingest thread logs its error) and handleConnectingTpReg.
+// (The reader's error for an IPv6 lookup in an IPv4-only database repeats the address: whichever of the two
+// lookups meets it must take it out.)
+func c17GeoIPShapes(t *testing.T, out *vlib.Out, glob *c17Buf) {
+	dir := t.TempDir()
+	for _, ccShape := range vc17.DBShapes {
+		for _, asnShape := range vc17.DBShapes {
+			ccPath, asnPath, err := vc17.WriteDBs(dir, ccShape, asnShape)
+			if err != nil {
+				c17Fail(out, "C17:harness-geoip-database", "cannot write the test databases: "+err.Error(), "geoipdb|write")
+				return
+			}
+			db, err := geoip.New(&geoip.DBConfig{CCDBPath: ccPath, ASNDBPath: asnPath})
+			if db == nil {
+				c17Fail(out, "C17:harness-geoip-database", fmt.Sprintf("geoip.New refused the %s / %s test databases: %v", ccShape, asnShape, err), "geoipdb|open")
+				continue
+			}
+			for _, cl := range vc17.Clients() {
+				stats := c17SigStats{ended: make(chan string, 8)}
+				ct := &c17CT{mk: func() (net.Conn, error) { return nil, context.DeadlineExceeded }}
+				rm := NewRegistrationManager(&RegConfig{ConnectingStats: stats, EnableIPv4: true, EnableIPv6: true, CovertBlocklistSubnets: []string{}, PhantomBlocklist: []string{}})
+				if rm == nil {
+					panic("no registration manager")
+				}
+				rm.GeoIP = db
+				rm.registeredDecoys.registerForDetector = func(*DecoyRegistration) {}
+				rm.registeredDecoys.updateInDetector = func(*DecoyRegistration) {}
+				rm.LivenessTester = &c17Live{}
+				if err := rm.AddTransport(pb.TransportType_DTLS, ct); err != nil {
+					panic(err)
+				}
+				var lb c17Buf
+				rm.Logger = log.New(&lb, "[REG] ", golog.Ldate|golog.Lmicroseconds)
+				c17StdReset(glob)
+				base := runtime.NumGoroutine()
+				// (a) a registration message naming the client as registrant
+				c2s, _ := mockReceiveFromDetector()
+				tt := pb.TransportType_DTLS
+				c2s.Transport = &tt
+				c2s.CovertAddress = proto.String("93.184.216.34:443")
+				c2s.V4Support = proto.Bool(true)
+				c2s.V6Support = proto.Bool(true)
+				src := pb.RegistrationSource_API
+				started := 0
+				for try := 0; try < 4; try++ {
+					w := &pb.C2SWrapper{SharedSecret: bytes.Repeat([]byte{byte(0x51 + 16*try)}, 32), RegistrationPayload: c2s, RegistrationSource: &src,
+						RegistrationAddress: []byte(cl.Addr.TCP.IP.To16()), DecoyAddress: []byte(net.ParseIP("198.18.0.9").To16())}
+					msg, err := proto.Marshal(w)
+					if err != nil {
+						panic(err)
+					}
+					regs, err := rm.parseRegMessage(msg)
+					if err != nil {
+						rm.Logger.Errorf("Encountered err when creating Reg: %v\n", err) // as startIngestThread does
+					}
+					for _, reg := range regs {
+						if reg != nil {
+							rm.ingestRegistration(reg) // ends in handleConnectingTpReg
+							started++
+						}
+					}
+				}
+				// (b) handleConnectingTpReg with a registration of its own
+				reg := c05RegLike("93.184.216.34:443", false)
+				reg.Transport = pb.TransportType_DTLS
+				var tr Transport = ct
+				reg.TransportPtr = &tr
+				reg.registrationAddr = cl.Addr.TCP.IP
+				handleConnectingTpReg(rm, reg, rm.Logger)
+				started++
+				// every attempt ends with a failed lookup (logged) or with the stub's Connect result (counted)
+				deadline := time.Now().Add(10 * time.Second)
+				for ended := 0; ended < started && time.Now().Before(deadline); {
+					select {
+					case <-stats.ended:
+						ended++
+					case <-time.After(2 * time.Millisecond):
+						if n := strings.Count(lb.String(), "Failed to get"); n+ended >= started {
+							ended = started
+						}
+					}
+				}
+				c17Settle(base)
+				logged := lb.String() + c17Std(glob)
+				out.Checked()
+				out.Count("geoipdb:cc-" + ccShape + ":asn-" + asnShape)
+				if strings.Contains(logged, "Failed to get") || strings.Contains(logged, "failed geoip") {
+					out.Count("geoipdb:lookup-failed:cc-" + ccShape + ":asn-" + asnShape + ":" + cl.Name)
+				}
+				if hit := vc17.Scan(logged, cl.Needles); hit != "" {
+					c17Fail(out, "C17:geoip-error-names-client",
+						fmt.Sprintf("country database %s, ASN database %s, %s client: the registration manager's log contains %s: %s", ccShape, asnShape, cl.Name, hit, c17Clip(logged, hit)),
+						fmt.Sprintf("geoipdb|%s|%s|%s", ccShape, asnShape, cl.Name))
+				}
 			}
 		}
 	}
@@ -998,6 +1179,9 @@ func c17LibReplay(t *testing.T, out *vlib.Out, path string, glob *c17Buf) {
 	if strings.Contains(s, "\nconnecting|") {
 		c17Connecting(t, out, glob)
 		c17ConnectFails(out, glob)
+	}
+	if strings.Contains(s, "\ngeoipdb|") {
+		c17GeoIPShapes(t, out, glob)
 	}
 	if strings.Contains(s, "\nstatistics") {
 		var cn [][]string
